@@ -15,11 +15,11 @@ def main():
             continue
         m = json.load(open(mp))
         n = int(sid.split('-')[1])
-        rnd = 1 if n <= 2 else 2 if n <= 4 else 3
+        rnd = 1 if n <= 2 else 2 if n <= 4 else 3 if n <= 6 else 4
         rules = []
         for p, reps in sorted(m.get('detected_by', {}).items()):
             for r in reps:
-                mm = re.match(r'(C\d\d\.R\w+)', r)
+                mm = re.match(r'(C\d\d\.[RT]\w+)', r)
                 if mm and mm.group(1) not in rules:
                     rules.append(mm.group(1))
         own = [r for r in rules if r.startswith(m['property'])]
@@ -30,8 +30,9 @@ def main():
         elif fr:
             if fr['own_check_reported']:
                 first = 'caught'
-            elif any(v == 'VIOLATION' for v in fr['checks'].values()):
-                first = 'only by %s' % ','.join(sorted(k for k, v in fr['checks'].items() if v == 'VIOLATION'))
+            elif any(v == 'VIOLATION' or (isinstance(v, dict) and v.get('rc') == 1) for v in fr['checks'].values()):
+                first = 'only by %s' % ','.join(sorted(k for k, v in fr['checks'].items()
+                                                      if v == 'VIOLATION' or (isinstance(v, dict) and v.get('rc') == 1)))
             elif fr['checks']:
                 first = 'analysis-error only'
             else:
